@@ -86,6 +86,10 @@ type c12VT struct {
 	S string `json:"s"`
 }
 
+type c12Big struct {
+	X []*int64 `json:"x"`
+}
+
 type c12variant struct {
 	text   string
 	schema avro.Schema
@@ -129,6 +133,9 @@ type c12shared struct {
 	docJSON    []string
 	// one Go type under several schemas (field orders x top-level forms), each with the encoding of one value
 	variants []c12variant
+	// two payloads of one type with thousands of pointees each (bank arrays far beyond their first sizes)
+	bigCodec avro.Codec
+	bigEnc   [2][]byte
 	// holder of a registered map type whose builder re-enters the library
 	reentCodecSchema avro.Schema
 	reentEnc         []byte
@@ -251,6 +258,20 @@ func c12prepare(c *core.Ctx, r *rand.Rand) *c12shared {
 				continue // a form the library does not support for a struct target is left out
 			}
 			sh.variants = append(sh.variants, c12variant{text, ls, enc})
+		}
+	}
+	// big payloads
+	if ls, err := avro.SchemaFromString(`{"type":"record","name":"big","fields":[{"name":"x","type":{"type":"array","items":["null","long"]}}]}`); err == nil {
+		if codec, err := ls.Codec(c12Big{}); err == nil {
+			sh.bigCodec = codec
+			for k := 0; k < 2; k++ {
+				n := 2500 + 700*k
+				b := refavro.AppendLong(nil, int64(n))
+				for j := 0; j < n; j++ {
+					b = refavro.AppendLong(refavro.AppendLong(b, 1), int64(j*2+k))
+				}
+				sh.bigEnc[k] = refavro.AppendLong(b, 0)
+			}
 		}
 	}
 	// re-entrant builder
@@ -452,7 +473,24 @@ func runC12(c *core.Ctx, i int) {
 			for k := 0; k < opsPer; k++ {
 				kind := ""
 				call := c12clock.Add(1)
-				switch op := gr.IntN(108); {
+				switch op := gr.IntN(112); {
+				case op >= 108 && sh.bigCodec != nil: // independent decodes of thousands of pointees, results held across a yield
+					kind = "decode-big"
+					k := gr.IntN(2)
+					var v c12Big
+					rb.Reset(sh.bigEnc[k])
+					if err := sh.bigCodec.Read(rb, unsafe.Pointer(&v)); err != nil {
+						fail(kind, err.Error())
+						break
+					}
+					runtime.Gosched()
+					for j, p := range v.X {
+						if p == nil || *p != int64(j*2+k) {
+							fail(kind, fmt.Sprintf("item %d of payload %d is not %d after other goroutines decoded", j, k, j*2+k))
+							break
+						}
+					}
+					rb.ExtractResourceBank().Close()
 				case op >= 104 && sh.reentEnc != nil: // a registered builder that re-enters the library while others Register
 					kind = "build-reentrant"
 					codec, err := sh.reentCodecSchema.Codec(c12RMHolder{})
